@@ -7,7 +7,7 @@ From Coq Require Import Sorted.
 (* C02's model (read-only; used by C01_mode_dot_is_fold_matmul_unfold only) is imported FIRST so that C01's own names win *)
 From TLV Require Import Model.Tenalg.
 From TLV Require Import Base.Shape Base.PyList Base.Tensor Model.Base Model.BaseExt Model.BasePy Model.BasePyCore
-  Proofs.BaseProofs Proofs.BaseProofs2 Proofs.BaseProofs3 Proofs.BaseProofs4 Proofs.BaseProofs5 Proofs.BaseProofs6 Proofs.BaseProofs7 Proofs.BaseProofs8 Proofs.BaseProofs9 Proofs.BaseProofs10 Proofs.BaseProofs11 Proofs.BaseProofs12 Proofs.BaseProofs13 Proofs.BaseProofs14 Proofs.BaseProofs15 Proofs.BaseProofs16 Proofs.BaseProofs17 Proofs.BaseProofs18 Proofs.BaseProofs19 Proofs.BaseProofs20 Proofs.BaseProofs21 Proofs.BaseProofs22
+  Proofs.BaseProofs Proofs.BaseProofs2 Proofs.BaseProofs3 Proofs.BaseProofs4 Proofs.BaseProofs5 Proofs.BaseProofs6 Proofs.BaseProofs7 Proofs.BaseProofs8 Proofs.BaseProofs9 Proofs.BaseProofs10 Proofs.BaseProofs11 Proofs.BaseProofs12 Proofs.BaseProofs13 Proofs.BaseProofs14 Proofs.BaseProofs15 Proofs.BaseProofs16 Proofs.BaseProofs17 Proofs.BaseProofs18 Proofs.BaseProofs19 Proofs.BaseProofs20 Proofs.BaseProofs21 Proofs.BaseProofs22 Proofs.BaseProofs23
   Model.BasePyNp.
 Import ListNotations.
 
@@ -782,3 +782,35 @@ Example C01_partial_matricize_injective_nonvacuous :
   partial_tensor_to_vec 0 t 1 0 = Ok (mk [2; 6] (seq 0 12)) /\
   matricize 0 t [1] None = Ok (mk [3; 4] [0; 1; 6; 7; 2; 3; 8; 9; 4; 5; 10; 11]).
 Proof. cbv zeta. repeat split; try (vm_compute; reflexivity); try (vm_compute; repeat constructor). Qed.
+
+(* second direction: the folding functions are injective on matrices / vectors of the shape they accept *)
+Theorem C01_fold_injective : forall (A : Type) (d : A) (u u' t : tensor A) (m : nat) (s : list nat),
+  wf u -> wf u' -> m < length s -> nth m s 0 <> 0 ->
+  shape u = [nth m s 0; prod (remove_nth m s)] -> shape u' = [nth m s 0; prod (remove_nth m s)] ->
+  fold d u m s = Ok t -> fold d u' m s = Ok t -> u = u'.
+Proof. exact @fold_injective. Qed.
+Print Assumptions C01_fold_injective.
+
+Theorem C01_vec_to_tensor_injective : forall (A : Type) (v v' t : tensor A) (s : list nat),
+  shape v = [prod s] -> shape v' = [prod s] ->
+  vec_to_tensor v s = Ok t -> vec_to_tensor v' s = Ok t -> v = v'.
+Proof. exact @vec_to_tensor_injective. Qed.
+Print Assumptions C01_vec_to_tensor_injective.
+
+Theorem C01_partial_fold_injective : forall (A : Type) (d : A) (u u' t : tensor A) (m : nat) (s : list nat) (sb se : nat) (rav : bool),
+  wf u -> wf u' -> sb + m + se < length s ->
+  let mids := firstn (length s - sb - se) (skipn sb s) in
+  let su := firstn sb s ++ (if rav then [nth m mids 0 * prod (remove_nth m mids)]
+                            else [nth m mids 0; prod (remove_nth m mids)]) ++ lastn se s in
+  shape u = su -> shape u' = su ->
+  prod (firstn sb s) * (if rav then 1 else nth (m + sb) s 0) * prod (lastn se s) <> 0 ->
+  partial_fold d u m s sb se = Ok t -> partial_fold d u' m s sb se = Ok t -> u = u'.
+Proof. exact @partial_fold_injective. Qed.
+Print Assumptions C01_partial_fold_injective.
+
+Example C01_fold_injective_nonvacuous :
+  let u := mk [3; 4] (seq 0 12) in let s := [2; 3; 2] in
+  wf u /\ 1 < length s /\ nth 1 s 0 <> 0 /\ shape u = [nth 1 s 0; prod (remove_nth 1 s)] /\
+  fold 0 u 1 s = Ok (mk [2; 3; 2] [0; 1; 4; 5; 8; 9; 2; 3; 6; 7; 10; 11]) /\
+  vec_to_tensor (mk [6] (seq 0 6)) [2; 3] = Ok (mk [2; 3] (seq 0 6)).
+Proof. cbv zeta. repeat split; try (vm_compute; reflexivity); try (vm_compute; repeat constructor); try discriminate. Qed.
